@@ -37,6 +37,10 @@ pub enum Use {
     Last,
     NthThenDrop(u8),
     NthBackThenDrop(u8),
+    /// provided Iterator / DoubleEndedIterator methods an implementation may override: argument = selector (see `arg`)
+    /// 0 for_each, 1 find, 2 rfind, 3 position, 4 rposition, 5 skip(a).next(), 6 step_by(a+1), 7 take(a), 8 rev().nth(a),
+    /// 9 any/all, 10 map-sum, 11 max/min by value, 12 zip with itself reversed, 13 by_ref().take(a) then the rest
+    Adaptor(u8, u8),
 }
 
 #[derive(Clone, Copy, Debug, Serialize, Deserialize, PartialEq, Eq, Hash)]
@@ -407,6 +411,129 @@ impl<T: Elem + IdOf + Clone + Debug, N: ArrayLength> Run<T, N> {
                     return Err(format!("clone.last() = {:?} expected {:?}", l, want.last()));
                 }
             }
+            Use::Adaptor(which, sel) => {
+                let mut c = c;
+                let len = want.len();
+                let a = arg(sel, len);
+                let key = if len == 0 { 0 } else { want[a.min(len - 1)] };
+                let fail = |what: &str, got: String, exp: String| Err(format!("clone.{what}: {got}, the queue model gives {exp}"));
+                match which % 14 {
+                    0 => {
+                        let mut v = vec![];
+                        c.for_each(|e| v.push(e.get()));
+                        if v != want {
+                            return fail("for_each", format!("{v:?}"), format!("{want:?}"));
+                        }
+                    }
+                    1 => {
+                        let g = c.find(|e| e.get() == key).map(|e| e.get());
+                        let w = want.iter().copied().find(|v| *v == key);
+                        let rest: Vec<u32> = c.map(|e| e.get()).collect();
+                        let wr: Vec<u32> = match want.iter().position(|v| *v == key) {
+                            Some(p) => want[p + 1..].to_vec(),
+                            None => vec![],
+                        };
+                        if g != w || rest != wr {
+                            return fail("find", format!("{g:?} then {rest:?}"), format!("{w:?} then {wr:?}"));
+                        }
+                    }
+                    2 => {
+                        let g = c.rfind(|e| e.get() == key).map(|e| e.get());
+                        let w = want.iter().rev().copied().find(|v| *v == key);
+                        let rest: Vec<u32> = c.map(|e| e.get()).collect();
+                        let wr: Vec<u32> = match want.iter().rposition(|v| *v == key) {
+                            Some(p) => want[..p].to_vec(),
+                            None => vec![],
+                        };
+                        if g != w || rest != wr {
+                            return fail("rfind", format!("{g:?} then {rest:?}"), format!("{w:?} then {wr:?}"));
+                        }
+                    }
+                    3 => {
+                        let g = c.position(|e| e.get() == key);
+                        let w = want.iter().position(|v| *v == key);
+                        if g != w {
+                            return fail("position", format!("{g:?}"), format!("{w:?}"));
+                        }
+                    }
+                    4 => {
+                        let g = c.rposition(|e| e.get() == key);
+                        let w = want.iter().rposition(|v| *v == key);
+                        if g != w {
+                            return fail("rposition", format!("{g:?}"), format!("{w:?}"));
+                        }
+                    }
+                    5 => {
+                        let g: Vec<u32> = c.skip(a).map(|e| e.get()).collect();
+                        let w: Vec<u32> = want.iter().copied().skip(a).collect();
+                        if g != w {
+                            return fail("skip", format!("{g:?}"), format!("{w:?}"));
+                        }
+                    }
+                    6 => {
+                        let step = a % 7 + 1;
+                        let g: Vec<u32> = c.step_by(step).map(|e| e.get()).collect();
+                        let w: Vec<u32> = want.iter().copied().step_by(step).collect();
+                        if g != w {
+                            return fail("step_by", format!("{g:?}"), format!("{w:?}"));
+                        }
+                    }
+                    7 => {
+                        let g: Vec<u32> = c.take(a).map(|e| e.get()).collect();
+                        let w: Vec<u32> = want.iter().copied().take(a).collect();
+                        if g != w {
+                            return fail("take", format!("{g:?}"), format!("{w:?}"));
+                        }
+                    }
+                    8 => {
+                        let g = c.rev().nth(a).map(|e| e.get());
+                        let w = want.iter().rev().copied().nth(a);
+                        if g != w {
+                            return fail("rev().nth", format!("{g:?}"), format!("{w:?}"));
+                        }
+                    }
+                    9 => {
+                        let mut c2 = c.clone();
+                        let (g1, g2) = (c.any(|e| e.get() == key), c2.all(|e| e.get() != key));
+                        let (w1, w2) = (want.iter().any(|v| *v == key), want.iter().all(|v| *v != key));
+                        if (g1, g2) != (w1, w2) {
+                            return fail("any/all", format!("{:?}", (g1, g2)), format!("{:?}", (w1, w2)));
+                        }
+                    }
+                    10 => {
+                        let g: u64 = c.map(|e| e.get() as u64).sum();
+                        let w: u64 = want.iter().map(|v| *v as u64).sum();
+                        if g != w {
+                            return fail("map().sum", format!("{g}"), format!("{w}"));
+                        }
+                    }
+                    11 => {
+                        let c2 = c.clone();
+                        let (g1, g2) = (c.max_by_key(|e| e.get()).map(|e| e.get()), c2.min_by_key(|e| e.get()).map(|e| e.get()));
+                        let (w1, w2) = (want.iter().copied().max(), want.iter().copied().min());
+                        if (g1, g2) != (w1, w2) {
+                            return fail("max_by_key/min_by_key", format!("{:?}", (g1, g2)), format!("{:?}", (w1, w2)));
+                        }
+                    }
+                    12 => {
+                        let c2 = c.clone();
+                        let g: Vec<(u32, u32)> = c.zip(c2.rev()).map(|(x, y)| (x.get(), y.get())).collect();
+                        let w: Vec<(u32, u32)> = want.iter().copied().zip(want.iter().rev().copied()).collect();
+                        if g != w {
+                            return fail("zip(rev)", format!("{g:?}"), format!("{w:?}"));
+                        }
+                    }
+                    _ => {
+                        let g1: Vec<u32> = c.by_ref().take(a).map(|e| e.get()).collect();
+                        let g2: Vec<u32> = c.map(|e| e.get()).collect();
+                        let w1: Vec<u32> = want.iter().copied().take(a).collect();
+                        let w2: Vec<u32> = want.iter().copied().skip(a).collect();
+                        if g1 != w1 || g2 != w2 {
+                            return fail("by_ref().take then the rest", format!("{g1:?} + {g2:?}"), format!("{w1:?} + {w2:?}"));
+                        }
+                    }
+                }
+            }
             Use::NthThenDrop(s) => {
                 let mut c = c;
                 let a = arg(s, want.len());
@@ -667,15 +794,16 @@ pub fn exec(case: &Case, acc: &mut Acc) -> Result<(), String> {
 
 fn use_strategy() -> impl Strategy<Value = Use> {
     prop_oneof![
-        Just(Use::Drop),
-        Just(Use::Collect),
-        Just(Use::CollectRev),
-        Just(Use::Fold),
-        Just(Use::RFold),
-        Just(Use::Count),
-        Just(Use::Last),
-        (0u8..11).prop_map(Use::NthThenDrop),
-        (0u8..11).prop_map(Use::NthBackThenDrop),
+        1 => Just(Use::Drop),
+        1 => Just(Use::Collect),
+        1 => Just(Use::CollectRev),
+        1 => Just(Use::Fold),
+        1 => Just(Use::RFold),
+        1 => Just(Use::Count),
+        1 => Just(Use::Last),
+        1 => (0u8..11).prop_map(Use::NthThenDrop),
+        1 => (0u8..11).prop_map(Use::NthBackThenDrop),
+        3 => (0u8..14, 0u8..11).prop_map(|(w, s)| Use::Adaptor(w, s)),
     ]
 }
 
@@ -761,6 +889,11 @@ fn exhaustive_cases(nmax: usize) -> Vec<Case> {
                     for u in uses {
                         ops.push(Op::Clone(u));
                     }
+                    for w in 0..14u8 {
+                        for sel in [0u8, 1, 2, 6, 7, 8] {
+                            ops.push(Op::Clone(Use::Adaptor(w, sel)));
+                        }
+                    }
                     for a in 0..=(len + 2).min(10) {
                         let sel = if a <= 5 { a as u8 } else { (a - 6 + 11) as u8 };
                         ops.push(Op::Clone(Use::NthThenDrop(sel)));
@@ -836,7 +969,7 @@ pub fn main() {
         Report {
             prop: PROP,
             level: "exploration",
-            rule: "cases = (length, element kind: drop-tracked 24-byte / u32 / drop-tracked 96-byte / zero-sized with a destructor / zero-sized without one / no drop glue with a call-counting Clone, operation sequence, final consuming operation) run against a VecDeque model; \
+            rule: "cases = (length, element kind: drop-tracked 24-byte / u32 / drop-tracked 96-byte / zero-sized with a destructor / zero-sized without one / no drop glue with a call-counting Clone, operation sequence, final consuming operation) run against a VecDeque model; clones are consumed through the listed operations and through 14 provided adaptor methods an implementation may override (for_each, find, rfind, position, rposition, skip, step_by, take, rev, any/all, sum, max/min_by_key, zip, by_ref); \
                    exhaustive part: every operation with every argument 0..=len+2 from every reachable (front, back) position, reached by a next/next_back route and by an nth/nth_back route; \
                    random part: proptest sequences of 0..60 operations on lengths 0..=12,16,31,32,33,64,100,255,256,1000,1024. \
                    non-trivial = at least two operations and (consumption from both ends, or an nth/nth_back, or a clone); \
